@@ -497,9 +497,17 @@ def timeout (s : S) (st : Nat) : S :=
   else if st == stPrecommitWait then enterNewRound fuel0 s
   else s
 
-/-- own block label for a proposal made by this validator at height h (BlockManager.Propose is a
-    function of the parent block and its commit votes: the same block in every round) -/
-def ownBlk (s : S) (h _r : Nat) : Blk := 8 * (100 + 50 * h) + s.me
+/-- own block label for a proposal made by this validator at height h.  BlockManager.Propose is a
+    function of the parent block, its commit votes and the transaction pool: the same block in every
+    round of one process life; the pool is volatile, so after a restart (the harness puts a fresh
+    transaction into the pool of every new life) a different block — the label depends on the number
+    of crashes so far. -/
+def crashCount : List Eff → Nat
+  | [] => 0
+  | .crash _ :: es => crashCount es + 1
+  | _ :: es => crashCount es
+
+def ownBlk (s : S) (h _r : Nat) : Blk := 8 * (100 + 50 * h + crashCount s.eff) + s.me
 
 /-- SetByValidatedBlock, only if currentBlockParts still holds the imported block -/
 def S.markValidated (s : S) (ib : Blk) : S :=
